@@ -34,9 +34,12 @@ ASSUMPTIONS = ['rv/lpformat.py implements the LP-format grammar subset correctly
 
 
 def gen_case(rng, idx, tier):
-    src = SRC.gen(rng, tier, kinds=['lp', 'lp', 'milp', 'milp', 'conic', 'ro'],
-                  outcomes=('optimal',))
+    src = SRC.gen(rng, tier, kinds=['lp', 'lp', 'milp', 'milp', 'conic', 'ro', 'ro'] +
+                  (['dro'] if SRC.HAS_DRO else []), outcomes=('optimal',))
     src['rescale'] = None
+    # the dual program is a compiled formula too (its cones list the head first, with the
+    # smallest index)
+    src['dual'] = bool(src['kind'] in ('conic', 'ro', 'dro', 'lp') and rng.random() < 0.3)
     if src['kind'] in ('lp', 'milp') and rng.random() < 0.45:
         src['rescale'] = int(rng.integers(1 << 30))
     return src
@@ -67,6 +70,8 @@ def run_case(spec, ctx):
     try:
         B = SRC.build(src)
         f = B.model.do_math()
+        if src.get('dual') and 'I' not in C.cone_class(f):
+            f = B.model.do_math(primal=False)
     except Exception as e:
         ctx.count('rsome_raises_build:' + type(e).__name__)
         return {'status': 'skip', 'reason': 'rsome raised at build: %s' % type(e).__name__}
@@ -77,7 +82,10 @@ def run_case(spec, ctx):
     text = f.lp_export()
     A = sp.csr_matrix(f.linear).toarray()
     n = A.shape[1]
-    feats = {'class': src['kind'], 'cone': cls, 'rescaled': src.get('rescale') is not None}
+    feats = {'class': src['kind'], 'cone': cls, 'rescaled': src.get('rescale') is not None,
+             'dual': bool(src.get('dual')),
+             'head_not_last': any(len(q_) > 1 and q_[0] < max(q_[1:]) for q_ in
+                                  (getattr(f, 'qmat', None) or []))}
     # ---- (1) independent reader
     try:
         P = lpformat.parse(text)
